@@ -1,0 +1,36 @@
+//! Verification hook: read-only dump of an archetype (only with `--cfg brood_verif`).
+
+use super::Archetype;
+use crate::{
+    registry::Registry,
+    verif::ArchetypeDump,
+};
+use alloc::vec::Vec;
+
+impl<R> Archetype<R>
+where
+    R: Registry,
+{
+    pub(crate) fn verif_dump(&self) -> ArchetypeDump {
+        // SAFETY: The slice does not outlive `self.identifier`.
+        let identifier_bytes = unsafe { self.identifier.as_slice() };
+        let mut entity_identifiers = Vec::with_capacity(self.length);
+        for index in 0..self.length {
+            // SAFETY: `self.entity_identifiers` is valid for reads of `self.length` elements.
+            let identifier = unsafe { *self.entity_identifiers.0.add(index) };
+            entity_identifiers.push((identifier.index, identifier.generation));
+        }
+        ArchetypeDump {
+            identifier_address: identifier_bytes.as_ptr() as usize,
+            identifier_bytes: identifier_bytes.to_vec(),
+            length: self.length,
+            entity_identifiers,
+            entity_identifiers_capacity: self.entity_identifiers.1,
+            columns: self
+                .components
+                .iter()
+                .map(|&(pointer, capacity)| (pointer as usize, capacity))
+                .collect(),
+        }
+    }
+}
